@@ -50,7 +50,7 @@ def fee_worlds(R, env, prog, sites, RULE):
         rem, n = world_edges(h, tp, want)
         w = h.with_removed(rem).settle()
         R.worlds += 1
-        R.ob(RULE, "ReceiveRewards:treasury=%s:tests" % name, n >= 2, "expected the accounting test and the payment test of treasury_address, found %d test(s)" % n, fn=hk)
+        R.ob(RULE, "ReceiveRewards:treasury=%s:tests" % name, n >= 1, "no test of treasury_address found (the accounting and the payment both depend on it; one merged test or two are fine), found %d" % n, fn=hk)
         fee_writes = []
         for op, alts in shared.state_writes(prog, w, env):
             for base, d in alts or []:
